@@ -103,7 +103,7 @@ class SymH:
         """exact constant (use for every numeric literal handed to the code under test)."""
         if isinstance(v, float):
             return box(core.lift_float(v))
-        if isinstance(v, str) and "/" in v:
+        if isinstance(v, str):
             return box(Fraction(v))
         return box(raw(v))
 
@@ -209,6 +209,11 @@ class SymH:
     def note(self, s):
         self.notes.append(s)
 
+    def policy(self, gather=None, sort=None, search=None, nonlinear=None):
+        self.np.set_policy(gather=gather, sort=sort, search=search)
+        if nonlinear is not None:
+            self.ex.defer_nonlinear = nonlinear == "defer"
+
     def cover(self, tag):
         self.ex.covers.add(tag)
 
@@ -266,7 +271,7 @@ class ConcH:
         return str(self._get(name))
 
     def const(self, v):
-        if isinstance(v, str) and "/" in v:
+        if isinstance(v, str):
             return float(Fraction(v))
         return v
 
@@ -364,6 +369,9 @@ class ConcH:
     def note(self, s):
         self.notes.append(s)
 
+    def policy(self, **kw):
+        pass
+
     def cover(self, tag):
         pass
 
@@ -443,7 +451,7 @@ class Runner:
     """explores one work item; collects evidence; replays counter-models."""
 
     def __init__(self, prop, run, params, *, query_timeout_ms=20000, check_timeout_ms=10000, max_paths=20000,
-                 max_models=6, tol=1e-9, max_decisions=400):
+                 max_models=6, tol=1e-9, max_decisions=400, first_try_ms=4000):
         self.prop = prop
         self.run = run
         self.params = params
@@ -452,6 +460,7 @@ class Runner:
         self.max_paths = max_paths
         self.max_models = max_models
         self.max_decisions = max_decisions
+        self.first_try_ms = first_try_ms
         self.tol = tol
         self.sa = None
         self.ex = None
@@ -485,9 +494,13 @@ class Runner:
         self._keys.add(key)
         t0 = time.time()
         ex.solver.push()
-        ex.solver.set("timeout", self.query_timeout_ms)
+        ex.solver.set("timeout", min(self.query_timeout_ms, self.first_try_ms))
+        if ex.defs:
+            ex.solver.add(ex.defs)
         ex.solver.add(neg)
         r = ex.check()
+        if r == "unknown":
+            r = self._retry_unknown(ex)
         dt = time.time() - t0
         res["queries"] += 1
         verdict = r
@@ -502,6 +515,23 @@ class Runner:
         if len(res["samples"]) < 3 or (verdict not in ("unsat",) and len(res["samples"]) < 8):
             res["samples"].append({"obligation": name, "path": _trace_str(ex.trace), "pc_size": len(ex.pc),
                                    "formula": _short(c), "verdict": verdict, "solver_ms": round(dt * 1000, 1)})
+
+    def _retry_unknown(self, ex):
+        """second opinion for nonlinear queries: nlsat tactic on the same assertions (unsat is sound; sat is not used)."""
+        for tac in ("qfnra-nlsat", "default"):
+            try:
+                s2 = z3.Tactic(tac).solver() if tac != "default" else z3.SolverFor("QF_NRA")
+                s2.set("timeout", self.query_timeout_ms)
+                s2.add(ex.solver.assertions())
+                t0 = time.time()
+                r2 = str(s2.check())
+                ex.stats["solver_s"] += time.time() - t0
+                self.res["retries"] = self.res.get("retries", 0) + 1
+                if r2 == "unsat":
+                    return "unsat"
+            except z3.Z3Exception:
+                continue
+        return "unknown"
 
     def _witness_from(self, h, m):
         w = {n: _val(m, c) for n, c in h.inputs.items()}
@@ -553,6 +583,7 @@ class Runner:
     def _violation(self, name, witness, rp, kind):
         v = {"obligation": name, "witness": witness, "params": self.params, "replay": rp, "kind": kind}
         self.res["violations"].append(v)
+        self.ex.stop = True   # one reproduced violation per work item is enough
 
     # ---- main
     def go(self):
@@ -566,6 +597,7 @@ class Runner:
             from . import np as snp
 
             snp.set_policy(gather="ite", sort="ite", search="auto")
+            runner.ex.defer_nonlinear = False
             snp.declare_float_atoms([])
             h = SymH(runner)
             runner._h = h
@@ -635,6 +667,8 @@ def body_wrapper(runner, body):
             runner.res["obligations"] += 1
             runner._keys.add((name, tuple(ex.trace)))
             tb = traceback.format_exc(limit=12)
+            if ex.defs:
+                ex.solver.add(ex.defs)
             r = ex.check()
             if r == "unsat":
                 raise Infeasible()
